@@ -173,12 +173,28 @@ def build(shape, names="unique"):
     return root, nodes, parent
 
 
-def lca_shape_fails(shape, full_triples=True, rng=None, names="unique"):
+def lca_shape_fails(shape, full_triples=True, rng=None, names="unique", history=None):
+    """history: None = a fresh tree; "subtrees-first" = query structures are first built on every proper subtree (sharing the node
+    objects), then on the whole tree; "rebuilt-after-prune" = a structure is built, the last child clade of the root is pruned, and a
+    new structure is built on the edited tree (what the class docstring prescribes after a change)."""
     root, nodes, parent = build(shape, names)
     if names == "leafdup":
         leafnames = [nd.name for nd in nodes if nd.is_leaf()]
         for k, nd in enumerate(n_ for n_ in nodes if not n_.is_leaf()):
             nd.name = leafnames[k % len(leafnames)]
+    if history == "subtrees-first":
+        for nd in reversed(nodes[1:]):
+            LowestCommonAncestor(nd)
+    elif history == "rebuilt-after-prune":
+        LowestCommonAncestor(root)
+        if len(root.children) >= 2:
+            gone = root.children[-1]
+            drop = {id(x) for x in gone.traverse()}
+            gone.detach()
+            keep = [i for i, nd in enumerate(nodes) if id(nd) not in drop]
+            remap = {old: new for new, old in enumerate(keep)}
+            nodes = [nodes[i] for i in keep]
+            parent = [None if parent[i] is None else remap[parent[i]] for i in keep]
     n = len(nodes)
     anc = []
     for i in range(n):
@@ -231,16 +247,16 @@ def lca_shape_fails(shape, full_triples=True, rng=None, names="unique"):
 def lca_item(item):
     out = dict(obligations=0, discharged=0, violations=[], paths=1, nontrivial=len(str(item["shape"])) > 6, item=item)
     nq = 0
-    for names in item.get("names", ["unique"]):
+    for names, history in [(nm, None) for nm in item.get("names", ["unique"])] + [("unique", h) for h in item.get("histories", [])]:
         rng = random.Random(item.get("seed", 0))
-        fails, k = lca_shape_fails(item["shape"], item.get("full", True), rng, names)
+        fails, k = lca_shape_fails(item["shape"], item.get("full", True), rng, names, history)
         nq += k
         out["obligations"] += k
         out["discharged"] += k - len(fails)
         if fails:
-            out["violations"].append({"kind": "lca", "text": f"tree {item['shape']} (node names: {names}): {fails[:4]}",
-                                      "signature": {"kind": "lca", "shape": item["shape"], "names": names},
-                                      "data": {"what": "lca", "shape": item["shape"], "names": names}, "confirmed": True})
+            out["violations"].append({"kind": "lca", "text": f"tree {item['shape']} (node names: {names}; history: {history or 'fresh tree'}): {fails[:4]}",
+                                      "signature": {"kind": "lca", "shape": item["shape"], "names": names, "history": history},
+                                      "data": {"what": "lca", "shape": item["shape"], "names": names, "history": history}, "confirmed": True})
     if item.get("sample"):
         out["sample"] = {"structure": "LowestCommonAncestor", "tree (nested child lists)": item["shape"], "queries": nq}
     return out
@@ -273,7 +289,7 @@ def replay(data):
         r = RMQ._ilog2(data["value"])
         cf = [] if (1 << r) <= data["value"] < (1 << (r + 1)) else [f"_ilog2({data['value']}) = {r}"]
     else:
-        cf, _ = lca_shape_fails(data["shape"], names=data.get("names", "unique"))
+        cf, _ = lca_shape_fails(data["shape"], names=data.get("names", "unique"), history=data.get("history"))
     for t in cf[:5]:
         print("  reproduced:", t)
     return bool(cf)
@@ -293,11 +309,12 @@ def main(argv=None):
     items.sort(key=lambda it: -it.get("n", 0))
     res, sk = R.run_sharded(worker, items, 3000)
     rep.add_results("range-minimum (solver)", res, sk, exhaustive=True)
-    shapes = [{"kind": "lca", "shape": s, "sample": (k == 5 and i == 3), "names": list(NAME_MODES)} for k in range(1, nodes + 1) for i, s in enumerate(plane_trees(k))]
+    shapes = [{"kind": "lca", "shape": s, "sample": (k == 5 and i == 3), "names": list(NAME_MODES),
+               "histories": ["subtrees-first", "rebuilt-after-prune"]} for k in range(1, nodes + 1) for i, s in enumerate(plane_trees(k))]
     res, sk = R.run_sharded(worker, shapes, 3000)
     rep.add_results("ancestry (exhaustive structural enumeration)", res, sk, exhaustive=True)
     rnd = [{"kind": "lca", "shape": random_shape(rng, rng.randint(8, 40)), "full": False, "seed": rng.randrange(10 ** 6),
-            "names": ["unique", rng.choice(NAME_MODES[1:])]} for _ in range(nrand)]
+            "names": ["unique", rng.choice(NAME_MODES[1:])], "histories": ["subtrees-first", "rebuilt-after-prune"]} for _ in range(nrand)]
     res, sk = R.run_sharded(worker, rnd, 3000)
     rep.add_results("ancestry (seeded larger trees, sampled triples)", res, sk, exhaustive=False)
     import superrec2.utils.trees as T
@@ -309,7 +326,8 @@ def main(argv=None):
                                    f"(empty and reversed ranges included); lengths 1..{n_fork} additionally with the real builtin min",
                   "_ilog2": "every value in [1, 2^24)",
                   "ancestry": f"every rooted plane tree of any arity with <= {nodes} nodes, every node, pair and triple, under four naming schemes (unique names; "
-                              f"unnamed ancestors; one shared name; ancestors named like leaves - the queries are about node identity); "
+                              f"unnamed ancestors; one shared name; ancestors named like leaves - the queries are about node identity) and after two construction "
+                              f"histories (structures built on every proper subtree first; structure rebuilt after pruning a clade); "
                               f"{nrand} seeded trees with 8-40 nodes (all pairs, 300 sampled triples)"}
     rep.stubs = ["range_min_query.min -> ite model of the builtin (left-biased min(a,b) = ite(b<a, b, a)) for n > %d" % n_fork]
     rep.assumptions = ["the ancestry sub-claim has no numeric dimension: it is decided by exhaustive enumeration of the stated finite space, not by the solver"]
